@@ -49,6 +49,8 @@ pub enum Stmt {
         even: String,
         odd: String,
     },
+    /// `redo-ifchange p` when p exists, else `redo-ifcreate p` (the usual idiom)
+    IfExists(String),
     /// read without declaring
     Read(Vec<String>),
     /// pipe the stampable part of the output so far to redo-stamp; with
@@ -104,6 +106,7 @@ impl Rule {
                 Stmt::Always => "always".to_string(),
                 Stmt::Redo(v) => join("redo", v),
                 Stmt::Switch { sel, even, odd } => format!("switch\t{}\t{}\t{}", sel, even, odd),
+                Stmt::IfExists(p) => format!("ifexists\t{}", p),
                 Stmt::Read(v) => join("read", v),
                 Stmt::Stamp { only } => join("stamp", only),
                 Stmt::Noise => "noise".to_string(),
@@ -154,6 +157,7 @@ impl Rule {
                     even: w[2].into(),
                     odd: w[3].into(),
                 },
+                "ifexists" if w.len() >= 2 => Stmt::IfExists(w[1].into()),
                 "read" => Stmt::Read(args(1)),
                 "stamp" => Stmt::Stamp { only: args(1) },
                 "noise" => Stmt::Noise,
